@@ -443,7 +443,7 @@ func trRun(args []string) error {
 		edges, hashes, idts := []any{}, []any{}, []any{}
 		for n := 0; n <= 46; n++ {
 			name := sbom.Edge_Type(n).ToSPDX2()
-			edges = append(edges, []any{n, name, int(sbom.EdgeTypeFromSPDX2(name)), int(sbom.EdgeTypeFromSPDX2(strings.ToLower(name)))})
+			edges = append(edges, []any{n, name, int(sbom.EdgeTypeFromSPDX2(name)), int(sbom.EdgeTypeFromSPDX2(strings.ToLower(name))), int(sbom.EdgeTypeFromSPDX(name))})
 		}
 		for n := 0; n <= 19; n++ {
 			name := string(sbom.HashAlgorithm(n).ToSPDX())
